@@ -248,10 +248,11 @@ class Term:
 
 
 class Block:
-    __slots__ = ("stmts", "term", "cleanup", "idx")
+    __slots__ = ("stmts", "term", "cleanup", "idx", "origin")
 
     def __init__(self, j, idx):
         self.idx = idx
+        self.origin = j.get("from")     # id of the function this block was spliced in from (norm.py), None = the body's own code
         self.stmts = [Stmt(s) for s in j["stmts"]]
         self.term = Term(j["term"])
         self.cleanup = j["cleanup"]
